@@ -3,7 +3,7 @@
 # One seed of a round: confirm it in its scratch worktree (tools/confirm_seed.sh), then run the quick check(s) against the
 # patch applied as a build overlay. Prints the RESULT line of the confirmation and the verdict of every check.
 set -u
-R=$1; ID=$2; PKG=$3; RUN=$4; PROPS=${5:-$ID}
+R=$1; ID=$2; PKG=$3; RUN=$4; PROPS=${5:-${ID:0:3}}
 S=/tmp/seed$R-$ID; WT=/tmp/wt$R-$ID
 /verif/tools/confirm_seed.sh "$S" "$WT" "$PKG" "$RUN" 2>&1 | grep -v "^ok\|^---\|^PASS\|^FAIL\|^$" | tail -6
 for p in ${PROPS//,/ }; do
